@@ -158,6 +158,7 @@ func (q *faultyQueue) Put(b []byte) error {
 
 type session struct {
 	gen    int
+	conn   int // the pooled connection this stream runs on
 	reqCh  chan *protoReplicaV1.ReplicaRequest
 	respCh chan *protoReplicaV1.ReplicaResponse
 	ready  chan struct{} // closed at the handler's first Recv (stream set-up done)
@@ -206,7 +207,7 @@ type clientStream struct {
 func (cs *clientStream) Send(r *protoReplicaV1.ReplicaRequest) error {
 	w := cs.p.w
 	w.sendTried = true
-	if cs.s.closed || cs.s.gen != cs.p.fgen {
+	if cs.s.closed || cs.s.gen != cs.p.fgen || cs.p.connClosed(cs.s.conn) {
 		w.sendFailed = true
 		return io.EOF
 	}
@@ -253,10 +254,20 @@ func (cs *clientStream) CloseSend() error {
 	return nil
 }
 
-type replicaClient struct{ p *peer }
+// replicaClient is a client stub bound to ONE pooled connection (rpc.clientStreamFactory:
+// NewReplicaServiceClient(connFct.GetClientConn(target))): once that connection is closed every call fails.
+type replicaClient struct {
+	p    *peer
+	conn int
+}
+
+var errConnClosing = errors.New("rpc error: code = Canceled desc = grpc: the client connection is closing")
 
 func (c *replicaClient) Reset(ctx context.Context, in *protoReplicaV1.ResetIndexRequest, _ ...grpc.CallOption) (*protoReplicaV1.ResetIndexResponse, error) {
 	w := c.p.w
+	if c.p.connClosed(c.conn) {
+		return nil, errConnClosing
+	}
 	if w.fault == "reset" {
 		return nil, errors.New("injected reset failure")
 	}
@@ -265,6 +276,9 @@ func (c *replicaClient) Reset(ctx context.Context, in *protoReplicaV1.ResetIndex
 }
 func (c *replicaClient) GetReplicaAckIndex(ctx context.Context, in *protoReplicaV1.GetReplicaAckIndexRequest, _ ...grpc.CallOption) (*protoReplicaV1.GetReplicaAckIndexResponse, error) {
 	w := c.p.w
+	if c.p.connClosed(c.conn) {
+		return nil, errConnClosing
+	}
 	if w.fault == "getack" {
 		return nil, errors.New("injected get-ack failure")
 	}
@@ -279,11 +293,14 @@ func (c *replicaClient) GetReplicaAckIndex(ctx context.Context, in *protoReplica
 }
 func (c *replicaClient) Replica(ctx context.Context, _ ...grpc.CallOption) (protoReplicaV1.ReplicaService_ReplicaClient, error) {
 	p := c.p
+	if p.connClosed(c.conn) {
+		return nil, errConnClosing
+	}
 	if p.w.fault == "connect" {
 		return nil, errors.New("injected connect failure")
 	}
 	md, _ := metadata.FromOutgoingContext(ctx)
-	s := &session{gen: p.fgen, reqCh: make(chan *protoReplicaV1.ReplicaRequest), respCh: make(chan *protoReplicaV1.ReplicaResponse, 1),
+	s := &session{gen: p.fgen, conn: c.conn, reqCh: make(chan *protoReplicaV1.ReplicaRequest), respCh: make(chan *protoReplicaV1.ReplicaResponse, 1),
 		ready: make(chan struct{}), done: make(chan struct{}), ctx: metadata.NewIncomingContext(context.Background(), md)}
 	go func() {
 		defer close(s.done)
@@ -317,7 +334,12 @@ func (f *streamFactory) CreateReplicaServiceClient(target models.Node) (protoRep
 	if f.w.fault == "cli" {
 		return nil, errors.New("injected client failure")
 	}
-	return &replicaClient{p: p}, nil
+	// connFct.GetClientConn: one pooled connection per node, dialled when there is none
+	if p.connID == 0 {
+		p.connSeq++
+		p.connID = p.connSeq
+	}
+	return &replicaClient{p: p, conn: p.connID}, nil
 }
 
 // ---------------------------------------------------------------- the world of one case
@@ -333,10 +355,15 @@ type peer struct {
 	fgen    int
 	sess    *session
 	live    bool
-	pending chan string
-	grp     queue.ConsumerGroup // this follower's consumer group on the leader (handle of the current incarnation)
-	stopped bool                // the group is not registered on the leader (never added, or stopped by IsExpire)
-	born    bool                // the group's directory exists on the leader
+	// the leader's connection pool for this follower (rpc.clientConnFactory): id of the pooled connection (0: none),
+	// ids handed out so far, and the ids up to which connections have been closed (CloseClientConn = close + remove)
+	connID, connSeq, connClosedUpTo int
+	wasOffline, sawOffOn, sawFclose bool // for the liveness oracle's key
+	buildFailed                     bool // BuildReplicaForLeader returned nil but built nothing
+	pending                         chan string
+	grp                             queue.ConsumerGroup // this follower's consumer group on the leader (handle of the current incarnation)
+	stopped                         bool                // the group is not registered on the leader (never added, or stopped by IsExpire)
+	born                            bool                // the group's directory exists on the leader
 
 	lostWake        bool // an online notification was delivered after the loop marked itself suspended and the loop stayed parked
 	putFailOnce     bool // the next Put on this follower's queue fails
@@ -391,6 +418,18 @@ type world struct {
 }
 
 func (w *world) leaderDir() string { return filepath.Join(w.dir, "leader") }
+
+func (p *peer) connClosed(id int) bool { return id <= p.connClosedUpTo }
+
+// closeClientConn is rpc.clientConnFactory.CloseClientConn: close the pooled connection and forget it; every
+// stream on it dies (the follower's handler sees the stream end), stubs bound to it fail from now on
+func (p *peer) closeClientConn() {
+	p.connClosedUpTo = p.connSeq
+	p.connID = 0
+	if p.sess != nil && p.sess.gen == p.fgen {
+		p.sess.kill()
+	}
+}
 
 func (p *peer) idx() int {
 	if p.w.peers[0] == p {
@@ -460,12 +499,25 @@ func (w *world) join(p *peer) error {
 	if err := w.lp.BuildReplicaForLeader(leaderID, []models.NodeID{p.id}); err != nil {
 		return err
 	}
+	p.born, p.stopped = true, false
+	registered := false
+	for _, n := range w.lq.ConsumerGroupNames() {
+		if n == strconv.Itoa(int(p.id)) {
+			registered = true
+		}
+	}
+	_, _, _, hasRepl := replica.VerifC08ReplicatorInfo(w.lp, p.id)
+	if !registered || !hasRepl {
+		// BuildReplicaForLeader answered nil and built nothing: do not create the group behind its back
+		p.buildFailed = true
+		p.grp = nil
+		return nil
+	}
 	g, err := w.lq.GetOrCreateConsumerGroup(strconv.Itoa(int(p.id)))
 	if err != nil {
 		return err
 	}
 	p.grp = g
-	p.born, p.stopped = true, false
 	return nil
 }
 
@@ -476,6 +528,7 @@ func (w *world) closeLeader() {
 			p.sess.kill() // the transport dies with the process
 		}
 		p.sess = nil
+		p.connClosedUpTo, p.connID = p.connSeq, 0 // the connection pool dies with the process
 	}
 	w.cancel()
 	_ = w.lp.Close()
@@ -693,7 +746,7 @@ func (w *world) observe() obs {
 			}
 			po.stream = "none"
 			if hasStream {
-				if p.sess != nil && !p.sess.closed && p.sess.gen == p.fgen {
+				if p.sess != nil && !p.sess.closed && p.sess.gen == p.fgen && !p.connClosed(p.sess.conn) {
 					po.stream = "up"
 				} else {
 					po.stream = "broken"
@@ -955,10 +1008,20 @@ func (w *world) apply(op string, pre obs) (string, *peer, error) {
 			return "", p, err
 		}
 		p.fwEpoch = map[int64]int{}
-		p.fcloseDisturbed = true
+		p.fcloseDisturbed, p.sawFclose = true, true
 		return "idle", p, p.open()
 	case "offline":
+		// coordinator/storage stateManager.onNodeFailure: the node leaves the live nodes, the watchers are notified
+		// with NodeOffline, then the pooled connection to it is closed and removed
+		wasLive := p.live
 		p.live = false
+		p.wasOffline = true
+		if wasLive {
+			if fn := w.sm.fns[p.id]; fn != nil && !p.stopped {
+				fn(models.NodeOffline)
+			}
+		}
+		p.closeClientConn()
 		return "idle", p, nil
 	case "join":
 		if !p.stopped {
@@ -981,6 +1044,9 @@ func (w *world) apply(op string, pre obs) (string, *peer, error) {
 		fallthrough
 	case "online":
 		p.live = true
+		if p.wasOffline {
+			p.wasOffline, p.sawOffOn = false, true
+		}
 		if p.stopped {
 			return "noreplicator", p, nil
 		}
@@ -1207,6 +1273,10 @@ func (w *world) check(c *core.Ctx, op, out string, ep *peer, pre, post obs) {
 				fail("channel-not-rebuilt-after-leader-restart", fmt.Sprintf("after %q the leader's log has a consumer group for the follower (consumed %d, ack %d, leader appended %d, follower live=%v) but no replicator was rebuilt: the channel cannot resume when the follower is (back) online", op, po.cons, po.gack, post.lApp, p.live))
 			}
 		}
+		// (4d) BuildReplicaForLeader that returns nil leaves the follower with a consumer group and a replicator
+		if mine && strings.HasPrefix(op, "join") && p.buildFailed {
+			fail("no-replicator-after-build-replica", fmt.Sprintf("%q: BuildReplicaForLeader returned nil for a follower whose replicator had been stopped by the expiry check, but the partition has no consumer group / replicator for it afterwards: nothing will ever be sent to this follower again", op))
+		}
 		// (5) the leader never discards a position this follower has not acknowledged
 		if !restart && po.stopped && !pr.stopped && post.lApp > po.gack {
 			fail("discarded-with-unacked", fmt.Sprintf("after %q the follower's group and replicator were stopped with appended %d > group ack %d (follower appended %d)", op, post.lApp, po.gack, po.fApp))
@@ -1312,7 +1382,7 @@ func genCase(rng *rand.Rand, tier string, idx int) []string {
 	return ops
 }
 
-// fixed histories replayed on every run (cases 0..10)
+// fixed histories replayed on every run (cases 0..12)
 var fixedCases = [][]string{
 	// 0: known finding: the leader loses its tail and re-appends beyond the follower before the handshake
 	{"append a0", "append a1", "append a2", "append a3", "step a none", "step a none", "step a none", "step a none",
@@ -1351,6 +1421,13 @@ var fixedCases = [][]string{
 	// 10: the follower's partition is destroyed under the leader's open, idle stream - at replica index 0, and later again
 	{"step a none", "fclose a", "append a0", "step a none", "step a none", "append a1", "step a none", "fclose a", "append a2",
 		"step a none", "step a none", "step a none", "step a none"},
+	// 11: the expiry check stops the drained follower A (B keeps the partition alive); a new write stream
+	// (BuildReplicaForLeader) must rebuild A's channel and A must receive what is written afterwards
+	{"join b", "append a0", "step a none", "expire", "join a", "append a1", "step a none", "step a none", "step b none", "step b none"},
+	// 12: a complete offline -> online cycle of the follower as the state manager sees it (pooled connection closed
+	// and removed): idle during the outage, and with messages arriving during the outage (the loop parks)
+	{"append a0", "step a none", "offline a", "online a none", "append a1", "step a none", "step a none",
+		"offline a", "append a2", "step a none", "online a none", "step a none", "step a none"},
 }
 
 var curWorld *world
@@ -1392,12 +1469,9 @@ func runCase(c *core.Ctx, i int, ops []string) (err error) {
 	defer w.destroy()
 	c.Op("reset", "ok "+w.observe().line)
 	acked, faulted := false, false
-	for _, op := range ops {
-		if w.gone {
-			break // the partition directory is removed by writeAheadLog.destroy: nothing left to drive
-		}
+	// doOp drives one protocol line on the real code, records it and runs the oracle; cont=false ends the case
+	doOp := func(op string) (out string, cont bool) {
 		pre := w.observe()
-		var out string
 		var ep *peer
 		var aerr error
 		func() {
@@ -1412,16 +1486,16 @@ func runCase(c *core.Ctx, i int, ops []string) (err error) {
 		if aerr != nil {
 			c.Fail("harness-error", fmt.Sprintf("op %q: %v", op, aerr))
 			c.Op(op, "error "+aerr.Error())
-			return nil
+			return out, false
 		}
 		if out == "bad-op" {
 			c.Op(op, "bad-op")
 			c.Branch("bad-op")
-			continue
+			return out, true
 		}
 		if strings.HasPrefix(out, "panic") {
 			c.Op(op, out)
-			return nil
+			return out, false
 		}
 		post := w.observe()
 		c.Op(op, out+" "+post.line)
@@ -1445,20 +1519,110 @@ func runCase(c *core.Ctx, i int, ops []string) (err error) {
 			faulted = true
 		}
 		w.check(c, op, out, ep, pre, post)
-		// a parked loop whose replicator was stopped cannot be resumed (it would touch a closed group)
-		stop := false
 		for _, p := range w.peers {
+			// a parked loop whose replicator was stopped cannot be resumed (it would touch a closed group);
+			// a loop that lost its wake-up cannot be resumed either
 			if (p.stopped || p.lostWake) && p.pending != nil {
-				stop = true // (a loop that lost its wake-up cannot be resumed either)
+				c.Branch("ended/parked-loop-not-resumable")
+				return out, false
+			}
+			if p.buildFailed {
+				c.Branch("ended/build-replica-built-nothing")
+				return out, false
 			}
 		}
-		if stop {
-			c.Branch("ended/parked-loop-not-resumable")
+		return out, true
+	}
+	ended := false
+	for _, op := range ops {
+		if w.gone {
+			break // the partition directory is removed by writeAheadLog.destroy: nothing left to drive
+		}
+		if _, cont := doOp(op); !cont {
+			ended = true
 			break
 		}
+	}
+	if !ended && !w.gone {
+		w.settle(c, i, doOp)
 	}
 	if acked && faulted {
 		c.NonTrivial()
 	}
 	return nil
+}
+
+// settle is the liveness epilogue of every case: whatever faults the history contained, once they stop —
+// the follower is online, one more message is appended and the replica loop makes fault-free iterations —
+// every follower that has a replication channel must catch up without anybody's help: channel ready on a
+// live stream, follower appended = consumed = acknowledged = leader appended. The lines are ordinary
+// protocol lines (the model replays them too).
+func (w *world) settle(c *core.Ctx, caseIdx int, doOp func(string) (string, bool)) {
+	var cand []*peer
+	for _, p := range w.peers {
+		if p.born && !p.stopped {
+			cand = append(cand, p)
+		}
+	}
+	if len(cand) == 0 {
+		return
+	}
+	c.Branch("settle/run")
+	if _, cont := doOp(fmt.Sprintf("append ee%02x", caseIdx%256)); !cont || w.gone {
+		return
+	}
+	for _, p := range cand {
+		if p.stopped || w.gone {
+			continue
+		}
+		if p.pending != nil || !p.live {
+			if _, cont := doOp("online " + p.name + " none"); !cont {
+				return
+			}
+		}
+		o := w.observe()
+		k := int(o.lApp-o.lAck) + 8
+		everReady := false
+		conv := func(o obs) bool {
+			po := o.p[p.idx()]
+			return po.chanSt == "ready" && po.stream == "up" && po.fApp == o.lApp && po.cons == o.lApp && po.gack == o.lApp
+		}
+		var outs []string
+		for n := 0; n < k && !conv(o); n++ {
+			out, cont := doOp("step " + p.name + " none")
+			if !cont {
+				return
+			}
+			outs = append(outs, out)
+			o = w.observe()
+			if o.p[p.idx()].chanSt == "ready" {
+				everReady = true
+			}
+			if p.stopped || w.gone {
+				break
+			}
+		}
+		if p.stopped || w.gone {
+			continue
+		}
+		if conv(o) {
+			c.Branch("settle/caught-up")
+			continue
+		}
+		po := o.p[p.idx()]
+		key := "no-resync-after-faults"
+		switch {
+		case !everReady && p.sawOffOn:
+			key = "never-ready-after-follower-offline-online"
+		case p.sawFclose:
+			key = "no-resync-after-follower-partition-recreated"
+		case !everReady:
+			key = "never-ready-after-faults"
+		}
+		if p.disturbed {
+			key = "reset-append-moves-other-followers-group"
+		}
+		c.Fail(key, fmt.Sprintf("follower %s: online, no fault injected any more, one message appended and %d fault-free replica calls later (outcomes %s) the channel has not caught up: state %s, stream %s, leader appended %d, consumed %d, group ack %d, follower appended %d (offline/online cycle seen: %v, follower partition re-created under the stream: %v)",
+			p.name, len(outs), strings.Join(outs, ","), po.chanSt, po.stream, o.lApp, po.cons, po.gack, po.fApp, p.sawOffOn, p.sawFclose))
+	}
 }
